@@ -502,6 +502,15 @@ func (i *Inst) RunRelay(r *RlScript, tw *TraceWriter, rng *rand.Rand) error {
 			}
 			pre := len(received) <= len(produced) && bytes.Equal(received, produced[:len(received)])
 			tw.Line(M{"ev": "b2c", "transport": r.Transport, "n": n, "sizecls": "stalled-client", "npk": npk, "rcv": rcv, "prefix": pre, "allwf": allwf})
+			if len(received) < len(produced) || !pre {
+				// the stream broke: what follows on this tunnel says nothing more
+				bc.Close()
+				return nil
+			}
+			select {
+			case <-sendErr:
+			case <-time.After(10 * time.Second):
+			}
 		case "bs":
 			n := num(a, "n", 1)
 			chunk := prng(prodSeed+int64(ai), n)
